@@ -84,13 +84,39 @@ fn run_list(list: &[TOp], pool: &Pool, scen: &std::collections::BTreeMap<(u8, St
                 outs.push(o);
             }
             TOp::BuildSettings(n) => {
-                let s = c2pa::Settings::new()
-                    .with_json(&json!({"core": {"merkle_tree_max_proofs": 100 + n % 7}}).to_string())
-                    .and_then(|s| s.with_value("verify.ocsp_fetch", n % 2 == 0));
+                // building settings values and contexts, in every form the API offers, never
+                // touches the calling thread's legacy thread-local settings
+                #[allow(deprecated)]
+                let before = c2pa::Settings::to_toml().unwrap_or_default();
+                let r: Result<(), String> = match n % 4 {
+                    0 => c2pa::Settings::new()
+                        .with_json(&json!({"core": {"merkle_tree_max_proofs": 100 + n % 7}}).to_string())
+                        .and_then(|s| s.with_value("verify.ocsp_fetch", n % 2 == 0))
+                        .map(|_| ())
+                        .map_err(|e| crate::report::err_kind(&e)),
+                    1 => c2pa::Context::new()
+                        .with_settings(format!("[core]\nmerkle_tree_max_proofs = {}\n[verify]\nverify_trust = false\n", 100 + n % 7).as_str())
+                        .map(|_| ())
+                        .map_err(|e| crate::report::err_kind(&e)),
+                    2 => c2pa::Context::new()
+                        .with_settings(json!({"core": {"merkle_tree_max_proofs": 100 + n % 7}, "verify": {"verify_trust": false}}).to_string().as_str())
+                        .map(|_| ())
+                        .map_err(|e| crate::report::err_kind(&e)),
+                    _ => c2pa::Settings::new()
+                        .with_toml(&format!("[core]\nmerkle_tree_max_proofs = {}\n", 100 + n % 7))
+                        .map(|_| ())
+                        .map_err(|e| crate::report::err_kind(&e)),
+                };
                 turnstile::yield_point("settings");
-                outs.push(match s {
-                    Ok(_) => Outcome::Unit,
-                    Err(e) => Outcome::Err(crate::report::err_kind(&e)),
+                #[allow(deprecated)]
+                let after = c2pa::Settings::to_toml().unwrap_or_default();
+                outs.push(if before != after {
+                    Outcome::Err("builder-changed-thread-local-settings".into())
+                } else {
+                    match r {
+                        Ok(_) => Outcome::Unit,
+                        Err(e) => Outcome::Err(e),
+                    }
                 });
             }
             TOp::Legacy(n) => {
@@ -274,6 +300,12 @@ impl Property for C24 {
                             json!({"thread": t, "op_index": i, "lists": lists.iter().map(descr).collect::<Vec<_>>(), "concurrent": got.brief(), "canceller": canceller}));
                         continue;
                     }
+                }
+                if got.err_kind() == Some("builder-changed-thread-local-settings") {
+                    out.schedule = Some(tso.decisions.clone());
+                    out.violate(t as u64, "thread-local-settings-leak:settings-or-context-builder", "C24 building settings values never changes the legacy thread-local settings of any thread",
+                        json!({"thread": t, "op_index": i, "lists": lists.iter().map(descr).collect::<Vec<_>>()}));
+                    continue;
                 }
                 let ok = got == want || (on_cancellable && is_cancelled_err(got));
                 if on_cancellable && is_cancelled_err(got) {
